@@ -434,8 +434,9 @@ class NP(_Stub):
             finally:
                 c.quiet -= 1
             c.assume(sand(0 <= r, r < n))
-            c.assume(SB(z3.ForAll([j], z3.Implies(z3.And(0 <= j, j < _term(n)), xr <= xj))))
-            c.assume(SB(z3.ForAll([j], z3.Implies(z3.And(0 <= j, j < _term(r)), xr < xj))))
+            sym.mark_index(r)
+            c.assume(SB(sym.forall_t([j], z3.Implies(z3.And(0 <= j, j < _term(n)), xr <= xj))))
+            c.assume(SB(sym.forall_t([j], z3.Implies(z3.And(0 <= j, j < _term(r)), xr < xj))))
             return r
         x = _c(x)
         vals = list(x.flat)
@@ -610,27 +611,66 @@ def _arr_fun(x):
     return f
 
 
-def spec_cumsum(x):
-    """cumsum(x)[k] = x[0] + ... + x[k]:  S(0) = x[0], S(k) = S(k-1) + x[k]"""
+def prefix_sum(body, nonneg=False):
+    """ghost function PS(k) = body(0) + ... + body(k-1) -- the trusted meaning of running sums (numpy.cumsum,
+    numpy.sum, accumulated path length) -- keyed by the *term* of the summand, so that the same summand always names
+    the same function.  Its defining recurrence  PS(0) = 0, PS(t+1) = PS(t) + body(t)  is instantiated at the index
+    terms the code / contract actually uses (no quantified recurrence: no matching loops)."""
     c = cur()
-    f = _arr_fun(x)
-    S = c.fresh_fun("cumsum", [I], R)
-    k = z3.Int("k!cs")
-    c.assume(SB(S(0) == f(0)))
-    c.assume(SB(z3.ForAll([k], z3.Implies(k >= 1, S(k) == S(k - 1) + f(k)), patterns=[S(k)])))
-    r = SArr(x.shape, lambda q: wrap(S(_term(q))), "real")
-    r.cumsum_of = (S, f)
-    return r
+    K = z3.Int("k!ps")
+    c.quiet += 1
+    try:
+        bt = _term(to_real(body(SI(K))))
+    finally:
+        c.quiet -= 1
+    key = bt.sexpr()
+    reg = c.ghost.setdefault("prefix_sum", {})
+    if key not in reg:
+        S = c.fresh_fun("psum", [I], R)
+        c.assume(SB(S(0) == 0))
+        reg[key] = (S, set())
+    S, done = reg[key]
+
+    def inst(t):
+        """recurrence instances around index term t"""
+        for u in (t, z3.simplify(t - 1)):
+            h = u.hash()
+            if h in done:
+                continue
+            done.add(h)
+            bu = z3.substitute(bt, (K, u))
+            norm3_axioms(bu)
+            f = z3.Implies(u >= 0, S(z3.simplify(u + 1)) == S(u) + bu)
+            if nonneg:
+                f = z3.And(f, z3.Implies(u >= 0, S(z3.simplify(u + 1)) >= S(u)))
+            cur().axiom(f, "psum.rec")
+
+    def PS(k):
+        t = z3.simplify(_term(k)) if not isinstance(k, int) else z3.IntVal(k)
+        ctx = cur()
+        if not ctx.quiet and not ctx.generic:
+            inst(t)
+        return wrap(S(t))
+    PS.fn = S
+    return PS
+
+
+def spec_cumsum(x):
+    """cumsum(x)[k] = x[0] + ... + x[k] = PS(k+1)"""
+    g = x._cell[0]
+    PS = prefix_sum(lambda k: g(k))
+    return SArr(x.shape, lambda q: PS(q + 1), "real")
+
+
+def path_D(pos):
+    """spec: travelled path length from point 0 to point k of a point sequence `pos(k) -> 3-vector`:
+    D(k) = sum_{j<k} |pos(j) - pos(j+1)|, i.e. D(0) = 0, D(k+1) = D(k) + |pos(k+1) - pos(k)|"""
+    return prefix_sum(lambda j: _norm_c(CArr([pos(j)[i] - pos(j + 1)[i] for i in range(3)])), nonneg=True)
 
 
 def spec_sum(x, n):
-    c = cur()
-    f = _arr_fun(x)
-    S = c.fresh_fun("psum", [I], R)  # S(k) = sum of the first k elements
-    k = z3.Int("k!ps")
-    c.assume(SB(S(0) == 0))
-    c.assume(SB(z3.ForAll([k], z3.Implies(k >= 1, S(k) == S(k - 1) + f(k - 1)), patterns=[S(k)])))
-    return wrap(S(_term(n)))
+    g = x._cell[0]
+    return prefix_sum(lambda k: g(k))(n)
 
 
 def spec_median(x):
@@ -663,7 +703,8 @@ def filtered_indices(n, pred):
                           patterns=[z3.MultiPattern(f(a), f(b))])))
     inv = c.fresh_fun("selinv", [I], I)
     c.assume(SB(z3.ForAll([k], z3.Implies(z3.And(0 <= k, k < nt, pk),
-                                          z3.And(0 <= inv(k), inv(k) < mt, f(inv(k)) == k)))))
+                                          z3.And(0 <= inv(k), inv(k) < mt, f(inv(k)) == k)),
+                          patterns=[sym.tr(SI(k))])))
     return SArr((m, ), lambda q: wrap(f(_term(q))), "int")
 
 
@@ -738,11 +779,66 @@ class _Linalg(_Stub):
 
 
 def _norm_c(v):
+    """Euclidean / Frobenius norm.  3-vectors: uninterpreted norm3(a, b, c) with ground-instantiated axioms
+    (non-negative, even, zero at zero; norm3^2 = a^2+b^2+c^2 only on request).  Other shapes: sqrt of the sum of
+    squares with the radicand in sum-of-monomials normal form."""
     v = _c(v)
+    if v.shape == (3, ) and sym.has_ctx() and any(is_sym(e) for e in v.flat):
+        return norm3(v[0], v[1], v[2])
     s = 0
     for e in v.flat:
         s = s + e * e
-    return ssqrt(s)
+    if is_sym(s) and sym.has_ctx():
+        s = wrap(z3.simplify(s.t, som=True))
+    return ssqrt(s, square_axiom=False)
+
+
+def _norm3_fn():
+    return uf("norm3", R, R, R, R)
+
+
+def norm3(a, b, c_):
+    f = _norm3_fn()
+    args = [z3.simplify(_term(to_real(x))) for x in (a, b, c_)]
+    y = f(*args)
+    norm3_axioms(y)
+    return wrap(y)
+
+
+def norm3_axioms(term):
+    """ground instances of the norm3 axioms for every norm3 application inside `term`"""
+    c = cur()
+    f = _norm3_fn()
+    stack = [term]
+    seen = set()
+    while stack:
+        t = stack.pop()
+        if t.get_id() in seen:
+            continue
+        seen.add(t.get_id())
+        if z3.is_quantifier(t):
+            continue
+        if z3.is_app(t):
+            if t.decl().eq(f):
+                a0, a1, a2 = t.children()
+                neg = f(z3.simplify(-a0), z3.simplify(-a1), z3.simplify(-a2))
+                c.axiom(z3.And(t >= 0, t == neg, z3.Implies(z3.And(a0 == 0, a1 == 0, a2 == 0), t == 0),
+                               z3.Implies(t == 0, z3.And(a0 == 0, a1 == 0, a2 == 0))), "norm3")
+            stack.extend(t.children())
+
+
+def norm3_square(term):
+    """on request: norm3(a,b,c)^2 = a^2 + b^2 + c^2 for the norm3 applications inside `term` (nonlinear)"""
+    c = cur()
+    f = _norm3_fn()
+    stack = [term]
+    while stack:
+        t = stack.pop()
+        if z3.is_app(t):
+            if t.decl().eq(f):
+                a0, a1, a2 = t.children()
+                c.axiom(t * t == a0 * a0 + a1 * a1 + a2 * a2, "norm3.sq")
+            stack.extend(t.children())
 
 
 class _Math(_Stub):
@@ -777,14 +873,18 @@ def angle_of_trace(tr):
     y = f(t)
     c.axiom(z3.And(y >= 0, y <= pi.t), "angle.range")
     c.axiom(z3.And((y == 0) == (t >= 3), (y == pi.t) == (t <= -1)), "angle.ends")
-    seen = c.ghost.setdefault("angle_traces", [])
-    for t2 in seen:
-        if not t2.eq(t):
-            y2 = f(t2)
-            c.axiom(z3.Implies(z3.And(t <= 3, t2 <= 3, t >= -1, t2 >= -1),
-                               z3.And((t < t2) == (y > y2), (t == t2) == (y == y2))), "angle.mono")
-    seen.append(t)
+    c.ghost.setdefault("angle_traces", []).append(t)
     return wrap(y)
+
+
+def angle_monotone(tr1, tr2):
+    """on request: the angle is strictly decreasing in the trace on [-1, 3] (instance for two given traces)"""
+    c = cur()
+    f = uf("angle_of_trace", R, R)
+    t, t2 = _term(to_real(tr1)), _term(to_real(tr2))
+    y, y2 = f(t), f(t2)
+    c.axiom(z3.Implies(z3.And(t <= 3, t2 <= 3, t >= -1, t2 >= -1),
+                       z3.And((t < t2) == (y > y2), (t == t2) == (y == y2))), "angle.mono")
 
 
 class _RotObj:
@@ -802,7 +902,7 @@ class _RotObj:
         ang = angle_of(m)
         n2 = v[0] * v[0] + v[1] * v[1] + v[2] * v[2]
         c.axiom(_term(n2 == ang * ang), "rotvec.norm")
-        nrm = ssqrt(n2)
+        nrm = _norm_c(v)
         c.axiom(_term(nrm == ang), "rotvec.norm2")
         return v
 
